@@ -24,6 +24,26 @@ func stripIdentity(v ssa.Value) ssa.Value {
 				continue
 			}
 			return v
+		case *ssa.UnOp:
+			// a parameter that lives in a cell because a closure captures it: the cell is written once, at function entry, with the
+			// parameter; every load is the parameter
+			if x.Op == token.MUL {
+				if al, ok := x.X.(*ssa.Alloc); ok && al.Comment != "" && al.Referrers() != nil {
+					var only ssa.Value
+					n := 0
+					for _, ref := range *al.Referrers() {
+						if st, ok := ref.(*ssa.Store); ok && st.Addr == ssa.Value(al) {
+							n++
+							only = st.Val
+						}
+					}
+					if p, ok := only.(*ssa.Parameter); ok && n == 1 && p.Parent() == al.Parent() {
+						v = p
+						continue
+					}
+				}
+			}
+			return v
 		default:
 			return v
 		}
